@@ -5,6 +5,8 @@ T=${1:-quick}; A=${2:-1}; B=${3:-10}; shift 3 2>/dev/null
 IDS=${@:-C01 C02 C03 C04 C05 C06 C07 C08 C09 C10 C11 C12 C13 C14 C15 C16 C18 C19 C20}
 SRC=$(cd "$(dirname "$0")" && pwd)
 BIN=${VERIF_BIN:-$SRC/harness/target/release/verif}
+# always rebuild against /repo's current tree first (seeded/try.sh and mutants/try.sh leave a binary built from the changed tree behind)
+(cd "$SRC/harness" && CARGO_NET_OFFLINE=true cargo build --release --offline >/dev/null 2>&1) || { echo "harness does not build"; exit 2; }
 W=$(mktemp -d /tmp/sweep.XXXXXX)
 cp -r "$SRC/regressions" "$W/"; cp "$SRC/KNOWN_FINDINGS.txt" "$W/"; mkdir -p "$W/evidence" "$W/out"
 bad=0
